@@ -23,18 +23,33 @@ fn call_of(payload: &[u8]) -> u64 {
     s.strip_prefix("call").and_then(|r| r.split(':').next()).and_then(|k| k.parse().ok()).unwrap_or(0)
 }
 
-async fn reqrep_case(client: &Client, raw: &quinn::Connection, log: &EvLog, run: u64, case: &Value, topic: &str, rng: &mut StdRng) -> Result<()> {
+async fn reqrep_case(client: &Client, raw: &quinn::Connection, log: &EvLog, run: u64, case: &Value, topic: &str, rng: &mut StdRng, comp: &str) -> Result<()> {
     let calls: Vec<(u64, String)> = case["calls"].as_array().unwrap().iter().map(|c| (c["s"].as_u64().unwrap(), c["mode"].as_str().unwrap().to_string())).collect();
-    log.emit("case", json!({"run": run, "calls": case["calls"]}));
+    log.emit("case", json!({"run": run, "calls": case["calls"], "comp": comp}));
+    // requests and replies go through the configured compression; the scripted replier undoes / redoes it
+    let plain = |b: &Bytes| -> Vec<u8> {
+        match compression(comp) {
+            Some((_, d)) => d.decompress(b.clone()).map(|x| x.to_vec()).unwrap_or_else(|_| b"undecodable".to_vec()),
+            None => b.to_vec(),
+        }
+    };
+    let packed = |s: String| -> Bytes {
+        match compression(comp) {
+            Some((c, _)) => c.compress(Bytes::from(s)).expect("compress"),
+            None => Bytes::from(s),
+        }
+    };
     let mut replier = register_raw_replier(raw, topic).await?;
     let open = || async {
-        client
-            .requestor(topic)
-            .with_request_encoder(StringCodec)
-            .with_reply_decoder(StringCodec)
-            .with_request_timeout(Duration::from_millis(TIMEOUT_MS))?
-            .open()
-            .await
+        let mut b = client.requestor(topic).with_request_encoder(StringCodec);
+        if let Some((c, _)) = compression(comp) {
+            b = b.with_request_compression(c);
+        }
+        let mut b = b.with_reply_decoder(StringCodec);
+        if let Some((_, d)) = compression(comp) {
+            b = b.with_reply_decompression(d);
+        }
+        b.with_request_timeout(Duration::from_millis(TIMEOUT_MS))?.open().await
     };
     let a = open().await?;
     let a2 = a.clone();
@@ -60,7 +75,7 @@ async fn reqrep_case(client: &Client, raw: &quinn::Connection, log: &EvLog, run:
     while got.len() < n {
         match tokio::time::timeout(Duration::from_secs(5), replier.next()).await {
             Ok(Some(Ok(Frame::Message(p)))) => {
-                let c = call_of(&p.message);
+                let c = call_of(&plain(&p.message));
                 log.emit("replier_got", json!({"c": c, "cid": p.headers.as_ref().and_then(|h| h.get("cid").cloned()), "rid": p.headers.as_ref().and_then(|h| h.get("req_id").cloned())}));
                 got.push((c, p));
             }
@@ -73,7 +88,7 @@ async fn reqrep_case(client: &Client, raw: &quinn::Connection, log: &EvLog, run:
     let mut late: Vec<(u64, MessagePayload)> = vec![];
     for (c, p) in got {
         let mode = calls.get(c as usize - 1).map(|x| x.1.as_str()).unwrap_or("never");
-        let reply = Frame::Message(MessagePayload { headers: p.headers.clone(), message: Bytes::from(format!("re:{}", String::from_utf8_lossy(&p.message))) });
+        let reply = Frame::Message(MessagePayload { headers: p.headers.clone(), message: packed(format!("re:{}", String::from_utf8_lossy(&plain(&p.message)))) });
         match mode {
             "now" => replier.send(reply).await?,
             "dup" => {
@@ -115,12 +130,12 @@ async fn reqrep_case(client: &Client, raw: &quinn::Connection, log: &EvLog, run:
         }
     }
     for (_, p) in &late {
-        let reply = Frame::Message(MessagePayload { headers: p.headers.clone(), message: Bytes::from(format!("re:{}", String::from_utf8_lossy(&p.message))) });
+        let reply = Frame::Message(MessagePayload { headers: p.headers.clone(), message: packed(format!("re:{}", String::from_utf8_lossy(&plain(&p.message)))) });
         replier.send(reply).await?;
     }
     tokio::time::sleep(Duration::from_millis(20)).await;
     for p in later_reqs {
-        let reply = Frame::Message(MessagePayload { headers: p.headers.clone(), message: Bytes::from(format!("re:{}", String::from_utf8_lossy(&p.message))) });
+        let reply = Frame::Message(MessagePayload { headers: p.headers.clone(), message: packed(format!("re:{}", String::from_utf8_lossy(&plain(&p.message)))) });
         replier.send(reply).await?;
     }
     for h in later {
@@ -156,7 +171,8 @@ pub async fn cmd_reqrep(args: Vec<String>) -> Result<()> {
                 let mut rng = StdRng::seed_from_u64(seed.wrapping_mul(104729).wrapping_add(run));
                 let topic = format!("/verifrr{}/case{}", seed % 1000, run);
                 let clog = EvLog::new(Box::new(std::io::sink()));
-                if let Err(e) = reqrep_case(&client, &raw, &clog, run, &cases[k], &topic, &mut rng).await {
+                let comp = COMPRESSIONS[(run as usize + seed as usize) % COMPRESSIONS.len()];
+                if let Err(e) = reqrep_case(&client, &raw, &clog, run, &cases[k], &topic, &mut rng, comp).await {
                     clog.emit("harness_error", json!({"err": e.to_string()}));
                 }
                 log.append_block(&clog);
